@@ -152,7 +152,8 @@ func genI2NewRule(r *rng, n int, w *bufio.Writer) {
 // op `i2.textmatch`: rule TEXT + request -> Go NewNetworkRule + Match, versus the complete parser
 // model + Match over modelPat, versus the reference computed from the parsed values and the mask
 // language.  No Go-supplied table but psl / addr / prefix.
-//   i2.textmatch <text> <listID> <addrs> <prefixes> <Q> <psl> = T|F|err
+//
+//	i2.textmatch <text> <listID> <addrs> <prefixes> <Q> <psl> = T|F|err
 func init() { gens["i2.textmatch"] = genI2TextMatch }
 
 func genI2TextMatch(r *rng, n int, w *bufio.Writer) {
